@@ -125,7 +125,7 @@ class C05(Property):
                 ctx.extra["incomplete"] = True
                 break
             if ctx.mode == "check" and ((i >= 20 and ctx.tier == "quick" and ctx.time_left() < 0.5 * self.quick_budget_s) or
-                                        (i >= 60 and ctx.tier == "thorough" and ctx.time_left() < 0.4 * self.thorough_budget_s)):
+                                        (i >= 60 and ctx.tier == "thorough" and ctx.time_left() < 0.5 * self.thorough_budget_s)):
                 # heavily loaded machine: the plan is "up to n workflows", at least 20 (quick) / 60 (thorough), corpus included
                 ctx.notes.append(f"soft time limit: stopped after {i} of {n} planned workflows")
                 break
